@@ -519,6 +519,10 @@ func Decide(c *Case, run func() ImplOut, extra map[string]func(*model.Interp, *g
 	}
 	io := run()
 	v.Impl = io
+	firstErrText := ""
+	if io.Err != nil {
+		firstErrText = io.Err.Error()
+	}
 	v.Msg, v.Model, v.Rows = match(c, io, pre, extra, checkPoint, checkPos)
 	v.Weak = len(v.Rows) > 0
 	if v.Msg != "" && c.Between == nil && len(ring) > 0 && !c.NoHistory {
@@ -552,6 +556,15 @@ func Decide(c *Case, run func() ImplOut, extra map[string]func(*model.Interp, *g
 	var io2 ImplOut
 	Quiet(func() { io2 = io.Again(c.Fields) })
 	evid.Label("history/second-run-same-point")
+	// whatever the check compares of an error: the second run reports what the first run reported, and the first run's
+	// error value is still what it was when it was returned
+	if io.Err != nil && io2.Err != nil {
+		first := firstErrText
+		if io2.Err.Error() != first || io.Err.Error() != first {
+			v.Msg = fmt.Sprintf("a second run of the same loaded script on an equal point reports another error than the first run: first %q, second %q, the first run's error value now reads %q", first, io2.Err.Error(), io.Err.Error())
+			return v
+		}
+	}
 	if msg, _, _ := match(c, io2, pre, extra, checkPoint, checkPos); msg != "" {
 		what := "a second run of the same loaded script on an equal point"
 		if c.Between != nil {
